@@ -68,6 +68,10 @@ class _CanonIf(ast.NodeTransformer):
 
     def visit_If(self, node):
         self.generic_visit(node)
+        return self._polarity(node)
+
+    @staticmethod
+    def _polarity(node):
         while node.orelse and isinstance(node.test, ast.UnaryOp) and isinstance(node.test.op, ast.Not):
             node.test, node.body, node.orelse = node.test.operand, node.orelse, node.body
         # `a != b` is exactly `not (a == b)` (also for NaN), `a is not b` exactly `not (a is b)`: the two-armed form is analysed with the positive test
@@ -126,7 +130,7 @@ class _CanonIf(ast.NodeTransformer):
         new = ast.copy_location(ast.If(test=v.test, body=[a], orelse=[b]), st)
         new.body = [self._split(a, simple_target)]
         new.orelse = [self._split(b, simple_target)]
-        return new
+        return self._polarity(new)          # the statement form gets the polarity every written-out two-armed statement gets
 
     def visit_Assign(self, st):
         self.generic_visit(st)
